@@ -7,6 +7,7 @@ exits 0 (held on everything explored) or 1.
 from __future__ import annotations
 
 import argparse
+import warnings
 import hashlib
 import importlib
 import json
@@ -33,6 +34,7 @@ def write_replay(pid, w):
 
 
 def main(argv=None):
+    warnings.filterwarnings("ignore")
     ap = argparse.ArgumentParser()
     ap.add_argument("pid")
     ap.add_argument("--tier", default=os.environ.get("VERIF_TIER", "quick"),
